@@ -48,10 +48,16 @@ def dm(x):
     return "(DNode [" + "; ".join(f"({addr(a)}, {dm(v)})" for a, v in x["node"]) + "])"
 
 
+KWV = [None]      # value of the enclosing function's keyword parameter (a literal chosen by the generator)
+
+
 def expr(e):
     t = e[0]
     if t == "k":
         return f"(EK {z(e[1])})"
+    if t == "kwv":
+        # the callee's keyword parameter: the call site always passes this literal by keyword
+        return f"(EK {z(KWV[0])})"
     if t == "v":
         return f"(EV {n(e[1])})"
     if t in ("add", "sub", "mul", "gt"):
@@ -69,7 +75,12 @@ def gast(g):
     if t == "dist":
         return f"(ADist {n(g[1])})"
     if t == "fn":
-        return f"(AFn {past(g[1])})"
+        saved = KWV[0]
+        KWV[0] = g[2]["kw"] if len(g) > 2 else None
+        try:
+            return f"(AFn {past(g[1])})"
+        finally:
+            KWV[0] = saved
     if t == "cond":
         return f"(ACond {gast(g[1])} {gast(g[2])})"
     if t == "vmap":
